@@ -6,6 +6,7 @@ CORE = ("chess_bitboard", "chess_lookup", "chess_movegen", "chess_engine", "ches
 PANIC_CALLEES = re.compile(r"^(core::panicking::|std::rt::begin_panic|core::option::Option::<T>::unwrap$|core::option::Option::<T>::expect$|core::result::Result::<T, E>::unwrap$|"
                            r"core::result::Result::<T, E>::expect$|core::option::unwrap_failed|core::result::unwrap_failed|core::option::expect_failed|core::hint::unreachable_unchecked|"
                            r"core::option::Option::<T>::unwrap_unchecked$|core::slice::index::|core::str::slice_error_fail)")
+DEBUG_ASSERT = re.compile(r"^\s*(?:core::|std::)?debug_assert(?:_eq|_ne)?!")
 GENERATED = re.compile(r"(ChessEngineTrait_trait|StableTimeout_trait|_::<impl |::_::|__sabi|_item_info_const_|<impl abi_stable::|abi_stable::StableAbi)")
 
 
@@ -16,6 +17,8 @@ def is_generated(key, body):
 def enumerate_sites(P, crates=CORE):
     """[{fn, kind, what, ord, span, exp}] for every Assert terminator, panic-family call and unsafe operation."""
     sites = []
+    skipped_debug_asserts = P.__dict__.setdefault("debug_asserts", [])
+    del skipped_debug_asserts[:]
     for key, body in P.fns.items():
         if body["crate"] not in crates or is_generated(key, body) or body.get("kind") == "promoted":
             continue
@@ -32,6 +35,11 @@ def enumerate_sites(P, crates=CORE):
                 fn = t["f"]["fn"]
                 if PANIC_CALLEES.match(fn):
                     what = ("call", fn)
+            if what and what[0] == "call" and t.get("exp") and what[1].startswith("core::panicking::") and DEBUG_ASSERT.match(P.src_line(t.get("sp")) or ""):
+                # `debug_assert!`: the repository's own debug-only self-check (compiled out of release builds), not an unchecked operation and
+                # not a way the shipped code can fail; recognised by the macro named at the expansion site
+                skipped_debug_asserts.append((key, t.get("sp")))
+                what = None
             if what:
                 k = (what[0], what[1])
                 counts[k] = counts.get(k, 0) + 1
